@@ -12,7 +12,7 @@ RULE = ("(i) round trip decode(encode(m)) for every single attribute assignment 
         "types, every pair of assignments from different groups, 10 all-groups-set variants, each x {no key, 20-byte key} x "
         "{fingerprint on, off}; MESSAGE-INTEGRITY recomputed with Qt's QMessageAuthenticationCode over the RFC 5389 "
         "pseudo-header form and FINGERPRINT with a bitwise CRC-32, for every key length 1..N (quick N=100, thorough 300) on the "
-        "representative messages, plus the public HMAC helper for every key length 0..N x 6 text lengths (40 vectors re-checked "
+        "representative messages, plus the public HMAC helper for every key length 0..N x 6 text lengths and 20 binary keys (0x00 at start/middle/end, all-zero, all-0xff) (40 vectors re-checked "
         "with Python hmac/zlib); (ii) for each representative authenticated message (quick 6, thorough 12; with and without "
         "fingerprint): every single-bit flip up to the end of MESSAGE-INTEGRITY, every truncation (with and without repaired "
         "length), every byte substituted by 00/7f/80/ff, all 65536 values of every 16-bit type/length field, 4 wrong keys; "
@@ -45,7 +45,7 @@ def post(res, cov, findings):
 def run(tier):
     return enum_check(PROP, HARNESS, tier, "exploration", RULE, ASSUME,
                       witness=["bitflips", "truncations", "u16_sweeps", "keylen_sweep", "allset", "tamper_controls_accepted",
-                               "tamper_rejected_total", "wrong_key_checks"], post=post)
+                               "tamper_rejected_total", "wrong_key_checks", "binary_keys"], post=post)
 
 
 def replay(path):
